@@ -2255,6 +2255,9 @@ function visitors.Goto(context, node)
   end
   -- `goto` changes the control flow and cannot be used with defer statement
   for scope in context.scope:iterate_up_scopes() do
+    if scope.is_deferblock and scope ~= labelscope then -- the label is outside this defer block
+      node:raisef("`goto` statement cannot jump out of a `defer` block")
+    end
     if scope.has_defer then
       node:raisef("cannot mix `goto` and `defer` statements")
     end
